@@ -240,6 +240,8 @@ struct Sandbox {
   uint64_t new_sp;       // stack pointer at the call instruction (== address of the argument area)
   uint64_t saved_sp;
   uint64_t scratch[8];
+  Image after;           // register file right after the function under test returned (gp: all but sp, vec: low 128 bits)
+  uint64_t after_sp;     // stack pointer right after the return
 };
 
 static Sandbox* g_sb = nullptr;       // lives below 2 GiB so that absolute [disp32] addressing reaches it
@@ -311,7 +313,16 @@ static bool init_sandbox() {
   for (uint32_t i = 0; i < 16; i++)
     if (i != Gp::kIdSp) a.mov(gpq(i), abs_mem(&g_sb->in.gp[i], 8));
   a.call(abs_mem(&g_sb->target, 8));
+  // what the caller of the function under test sees after the return: stack pointer and the whole register file
+  // (judged against the preserved-register set of the convention; the sentinels are the `in` image itself)
+  a.mov(abs_mem(&g_sb->after_sp, 8), rsp);
   a.mov(rsp, abs_mem(&g_sb->saved_sp, 8));
+  for (uint32_t i = 0; i < 16; i++)
+    if (i != Gp::kIdSp) a.mov(abs_mem(&g_sb->after.gp[i], 8), gpq(i));
+  for (uint32_t i = 0; i < 16; i++) {
+    if (g_has_avx) a.vmovups(abs_mem(g_sb->after.vec[i], 16), xmm(i));
+    else a.movups(abs_mem(g_sb->after.vec[i], 16), xmm(i));
+  }
   a.emms();
   if (g_has_avx) a.vzeroupper();
   a.pop(r15); a.pop(r14); a.pop(r13); a.pop(r12); a.pop(rbp); a.pop(rbx);
@@ -437,6 +448,10 @@ static int mode_shuffle(const Args& args) {
   int64_t only = args.has("only") ? int64_t(args.u64("only", 0)) : -1;
   bool exec = arch_s == "x64" && args.u64("exec", 1) != 0;
   uint64_t convert_mode = args.u64("convert", 0);   // 0: never request f32<->f64 conversion, 1: request it often
+  // 1: enumerated frame/assignment variants for signatures with stack-passed arguments: the stack-argument base register is
+  //    {default, every callee-saved GP register of the convention, a caller-saved scratch register} x {dynamic alignment} x
+  //    {preserved frame pointer}; on x86-32 additionally conventions whose scratch registers all hold incoming arguments
+  uint64_t savar = args.u64("savar", 0);
   Arch arch = arch_s == "x64" ? Arch::kX64 : arch_s == "x86" ? Arch::kX86 : Arch::kAArch64;
   bool is_x86 = arch != Arch::kAArch64;
 
@@ -456,6 +471,15 @@ static int mode_shuffle(const Args& args) {
                                         {"x86-win", "thiscall"}, {"x86-linux", "regparm1"}, {"x86-linux", "regparm2"}, {"x86-linux", "regparm3"},
                                         {"x86-linux", "lightcall2"}, {"x86-linux", "lightcall3"}, {"x86-linux", "lightcall4"}};
   else convs = {{"a64-linux", "cdecl"}, {"a64-apple", "cdecl"}};
+  std::vector<ConvChoice> convs_abi;     // conventions with a platform ABI (the variant enumeration walks these in order)
+  for (auto& c : convs) {
+    bool dup = false;
+    for (auto& d : convs_abi) if (!strcmp(c.env, d.env) && !strcmp(c.conv, d.conv)) dup = true;
+    if (!dup && strncmp(c.conv, "lightcall", 9) != 0) convs_abi.push_back(c);
+  }
+  static const ConvChoice exhaust_convs[8] = {{"x86-linux", "regparm3"}, {"x86-linux", "regparm2"}, {"x86-linux", "regparm1"}, {"x86-linux", "fastcall"},
+                                              {"x86-linux", "regparm3"}, {"x86-win", "thiscall"}, {"x86-win", "fastcall"}, {"x86-linux", "regparm3"}};
+  const uint32_t kVarBase = 64, kVarCount = kVarBase + (arch == Arch::kX86 ? 8u : 0u);
 
   for (uint64_t idx = first; idx < first + count; idx++) {
     Rng rng = Rng(master.s ^ (idx * 0xD1B54A32D192ED03ull)).fork(idx);
@@ -463,6 +487,13 @@ static int mode_shuffle(const Args& args) {
     st.cases++;
 
     ConvChoice cv = convs[rng.below(convs.size())];
+    // ---- variant enumeration (--savar 1) ----
+    uint32_t var_i = uint32_t(idx % kVarCount);
+    bool exhaust_scratch = savar && var_i >= kVarBase;
+    int var_sa = int(var_i % 16);                    // index into {default, preserved GP registers..., scratch}
+    bool var_da = ((var_i >> 4) & 1) != 0, var_fp = ((var_i >> 5) & 1) != 0;
+    if (savar) cv = exhaust_scratch ? exhaust_convs[var_i - kVarBase] : convs_abi[(idx / kVarCount) % convs_abi.size()];
+    if (exhaust_scratch) { var_da = true; var_fp = false; var_sa = 0; }
     bool light = strncmp(cv.conv, "lightcall", 9) == 0;
     Environment env = env_by_name(cv.env);
     bool want_avx = is_x86 && (!exec || g_has_avx) && rng.chance(1, 3);
@@ -490,6 +521,21 @@ static int mode_shuffle(const Args& args) {
     uint32_t flavour = uint32_t(rng.below(4));
     FuncSignature sig(conv_by_name(cv.conv));
     sig.set_ret(TypeId::kVoid);
+    if (savar) {
+      nargs = arch == Arch::kX64 ? uint32_t(rng.range(4, 14)) : arch == Arch::kX86 ? uint32_t(rng.range(1, 9)) : uint32_t(rng.range(6, 14));
+      flavour = uint32_t(rng.below(2));
+    }
+    static const TypeId narrow_pool[] = {TypeId::kInt32, TypeId::kUInt32, TypeId::kInt16, TypeId::kUInt16, TypeId::kInt32, TypeId::kUInt32};
+    if (exhaust_scratch) {
+      // every register the convention passes integers in holds an argument, 1..3 more follow on the stack
+      FuncDetail probe;
+      FuncSignature ps(conv_by_name(cv.conv));
+      ps.set_ret(TypeId::kVoid);
+      uint32_t npassed = probe.init(ps, env) == Error::kOk ? Support::popcnt(probe.call_conv().passed_regs(RegGroup::kGp)) : 3;
+      nargs = npassed + uint32_t(rng.range(1, 3));
+      for (uint32_t i = 0; i < nargs; i++) sig.add_arg(narrow_pool[rng.below(6)]);
+    }
+    else
     for (uint32_t i = 0; i < nargs; i++) {
       TypeId t;
       for (;;) {
@@ -503,6 +549,23 @@ static int mode_shuffle(const Args& args) {
 
     FuncDetail fd;
     Error err = fd.init(sig, env);
+    if (savar && !exhaust_scratch) {
+      // the variants are about the stack-argument base register: make sure something is passed on the stack (by value)
+      auto has_stack_value = [&]() {
+        for (uint32_t a = 0; a < fd.arg_count(); a++)
+          for (uint32_t v = 0; v < Globals::kMaxValuePack; v++) {
+            const FuncValue& fv = fd.arg(a, v);
+            if (!fv) break;
+            if (fv.is_assigned() && fv.is_stack() && !fv.is_indirect()) return true;
+          }
+        return false;
+      };
+      while (err == Error::kOk && !has_stack_value() && sig.arg_count() < 30) {
+        sig.add_arg(rng.chance(1, 4) && arch != Arch::kX86 ? TypeId::kInt64 : narrow_pool[rng.below(6)]);
+        nargs = sig.arg_count();
+        err = fd.init(sig, env);
+      }
+    }
     if (err != Error::kOk) {
       st.rejected_detail++;
       st.rejects[std::string("detail:") + err_name(err)]++;
@@ -531,6 +594,7 @@ static int mode_shuffle(const Args& args) {
 
     // ---- frame options ----
     bool preserved_fp = rng.chance(3, 10);
+    if (savar) preserved_fp = var_fp;
     uint32_t gp_count = arch == Arch::kX64 ? 16 : arch == Arch::kX86 ? 8 : 32;
     uint32_t vec_count = arch == Arch::kX64 ? 16 : arch == Arch::kX86 ? 8 : 32;
     RegMask allowed[4];
@@ -551,9 +615,48 @@ static int mode_shuffle(const Args& args) {
     }
 
     // ---- destinations ----
-    uint32_t shape = uint32_t(rng.below(5));   // 0 perm, 1 scatter, 2 tostack, 3 exhaust, 4 mixed
-    static const char* shape_names[] = {"perm", "scatter", "tostack", "exhaust", "mixed"};
+    uint32_t shape = uint32_t(rng.below(5));   // 0 perm, 1 scatter, 2 tostack, 3 exhaust, 4 mixed, 5 scratch-exhaust (variants only)
+    static const char* shape_names[] = {"perm", "scatter", "tostack", "exhaust", "mixed", "scratch-exhaust"};
+    if (exhaust_scratch) shape = 5;
     RegMask used_dst[4] = {0, 0, 0, 0};
+    // the preserved GP set the platform ABI prescribes (not read from the library): SysV x86-64, Microsoft x64, i386, AAPCS64
+    RegMask abi_pres_gp = 0, abi_pres_vec = 0;
+    bool abi_known = !light;
+    if (arch == Arch::kX64) {
+      bool win = strcmp(cv.conv, "sysv64") != 0;
+      abi_pres_gp = win ? 0xF0E8u : 0xF028u;
+      abi_pres_vec = win ? 0xFFC0u : 0u;
+    }
+    else if (arch == Arch::kX86) abi_pres_gp = 0xE8u;
+    else { abi_pres_gp = 0x3FF80000u; abi_pres_vec = 0xFF00u; }
+    if (light) { abi_pres_gp = fd.call_conv().preserved_regs(RegGroup::kGp) & ~Support::bit_mask<RegMask>(arch == Arch::kAArch64 ? 31u : 4u); abi_pres_vec = fd.call_conv().preserved_regs(RegGroup::kVec); }
+    RegMask src_gp = 0;
+    for (auto& x : vals)
+      if (x.src.is_reg() && !x.src.is_indirect() && RegUtils::group_of(x.src.reg_type()) == RegGroup::kGp) src_gp |= 1u << x.src.reg_id();
+    // variants: which register addresses the stack arguments, and through which API it is requested
+    int var_sa_reg = -1;
+    const char* var_sa_kind = "default";
+    bool var_via_frame = false;
+    if (savar && !exhaust_scratch) {
+      std::vector<int> choices = {-1};
+      for (uint32_t i = 0; i < 32; i++) if ((abi_pres_gp & allowed[0]) & (1u << i)) choices.push_back(int(i));
+      choices.push_back(-2);
+      int c = choices[size_t(var_sa) % choices.size()];
+      if (c >= 0) { var_sa_reg = c; var_sa_kind = "callee-saved"; }
+      else if (c == -2) {
+        RegMask avail = allowed[0] & ~abi_pres_gp & ~src_gp;
+        if (!avail || rng.chance(1, 3)) avail = allowed[0] & ~abi_pres_gp;
+        if (avail) {
+          uint32_t nb = Support::popcnt(avail), k = uint32_t(rng.below(nb));
+          for (uint32_t i = 0; i < 32; i++) if (avail & (1u << i)) { if (!k) { var_sa_reg = int(i); break; } k--; }
+          var_sa_kind = "caller-saved";
+        }
+      }
+      if (var_sa_reg >= 0) {
+        used_dst[0] |= 1u << var_sa_reg;                          // no argument may be assigned to it
+        var_via_frame = !(src_gp & (1u << var_sa_reg)) && rng.chance(1, 4);   // FuncFrame::set_sa_reg_id() instead of FuncArgsAssignment's
+      }
+    }
     uint32_t max_int_size = arch == Arch::kX86 ? 4 : 8;
 
     auto pick_dst_type = [&](const Val& x, bool to_stack) -> std::pair<TypeId, bool> {
@@ -650,12 +753,20 @@ static int mode_shuffle(const Args& args) {
     for (auto& x : vals) {
       TypeId st_ = x.src.type_id();
       if (x.src.is_indirect()) continue;                       // not supported by the API (documented)
-      if (shape != 3 && rng.chance(1, 10)) continue;           // leave some arguments unassigned
+      if (shape == 5) break;                                   // assigned below
+      if (shape != 3 && !(savar && x.src.is_stack()) && rng.chance(1, 10)) continue;           // leave some arguments unassigned
       bool src_is_reg = x.src.is_reg();
       uint32_t g = uint32_t(natural_group(st_));
       if (src_is_reg) g = uint32_t(RegUtils::group_of(x.src.reg_type()));
       bool to_stack = (shape == 2 && rng.chance(1, 2)) || (shape == 4 && rng.chance(1, 5));
       if (g >= 2 && to_stack && !src_is_reg) to_stack = false;
+      if (savar && !var_da && to_stack) {
+        // "dynamic alignment off": only slots the natural stack alignment of the convention already guarantees
+        uint32_t sz = TypeUtils::size_of(st_);
+        uint32_t al = sz >= 64 ? 64 : sz >= 32 ? 32 : sz >= 16 ? 16 : sz >= 8 ? 8 : 4;
+        if (arch != Arch::kX86 && al < 8) al = 8;
+        if (al > fd.call_conv().natural_stack_alignment()) to_stack = false;
+      }
       auto dt = pick_dst_type(x, to_stack);
       TypeId dtype = dt.first;
       if (to_stack) {
@@ -697,6 +808,30 @@ static int mode_shuffle(const Args& args) {
       x.convert = dt.second;
     }
 
+    if (shape == 5) {
+      // register arguments rotate inside the set of argument registers (no other register becomes a destination), stack
+      // arguments are copied to the function's own (dynamically aligned) stack: the shuffler needs a register for the copy and
+      // one to address the stack arguments while every caller-saved register of the convention may hold an argument
+      std::vector<Val*> rv;
+      for (auto& x : vals) if (x.src.is_reg() && RegUtils::group_of(x.src.reg_type()) == RegGroup::kGp) rv.push_back(&x);
+      uint32_t rot = rv.size() > 1 ? uint32_t(rng.range(1, rv.size() - 1)) : 0;
+      bool keep = (var_i - kVarBase) == 7;        // last sub-variant: arguments stay where they are
+      for (size_t i = 0; i < rv.size(); i++) {
+        Val& x = *rv[i];
+        uint32_t id = keep ? x.src.reg_id() : rv[(i + rot) % rv.size()]->src.reg_id();
+        x.dst.init_reg(RegType::kGp32, id, x.src.type_id());
+        x.has_dst = true;
+        used_dst[0] |= 1u << id;
+      }
+      for (auto& x : vals) {
+        if (!x.src.is_stack()) continue;
+        uint32_t off = take_slot(4);
+        x.dst.init_stack(int32_t(off), x.src.type_id());
+        x.has_dst = true;
+        slots.push_back({off, 4});
+      }
+    }
+
     // ---- effective destination types and roles ----
     for (auto& x : vals) {
       if (!x.has_dst) continue;
@@ -732,6 +867,8 @@ static int mode_shuffle(const Args& args) {
     if (want_avx512) frame.set_avx512_enabled();
     uint32_t extra_align = 0;
     if (rng.chance(1, 4)) extra_align = uint32_t(16u << rng.below(3));
+    if (savar) extra_align = var_da ? uint32_t(32u << rng.below(2)) : 0;
+    if (exhaust_scratch) extra_align = 16;      // i386: the natural alignment is 4
     uint32_t local_align = std::max(max_slot_align, extra_align);
     if (stack_cursor || extra_align) {
       frame.set_local_stack_size(std::max<uint32_t>(stack_cursor, 16));
@@ -749,7 +886,12 @@ static int mode_shuffle(const Args& args) {
         else asg.assign_stack_in_pack(x.arg, x.vi, x.dst.stack_offset(), x.dst.type_id());
       }
     int sa_out = -1;
-    if (rng.chance(1, 5)) {
+    int sa_preset = -1;
+    if (savar) {
+      if (var_sa_reg >= 0 && !var_via_frame) { sa_out = var_sa_reg; asg.set_sa_reg_id(uint32_t(sa_out)); }
+      if (var_sa_reg >= 0 && var_via_frame) { sa_preset = var_sa_reg; frame.set_sa_reg_id(uint32_t(sa_preset)); }
+    }
+    else if (rng.chance(1, 5)) {
       RegMask avail = allowed[0] & ~used_dst[0];
       if (avail) {
         uint32_t nb = Support::popcnt(avail), k = uint32_t(rng.below(nb));
@@ -757,8 +899,7 @@ static int mode_shuffle(const Args& args) {
         asg.set_sa_reg_id(uint32_t(sa_out));
       }
     }
-    int sa_preset = -1;
-    if (rng.chance(1, 8)) {
+    if (!savar && rng.chance(1, 8)) {
       // a caller-chosen register that holds the stack-argument base; must not be an argument source
       RegMask avail = allowed[0] & ~src_regs[0];
       if (avail) {
@@ -776,6 +917,12 @@ static int mode_shuffle(const Args& args) {
       snprintf(b, sizeof b, "{\"i\":%llu,\"arch\":\"%s\",\"env\":\"%s\",\"conv\":\"%s\",\"shape\":\"%s\",\"fp\":%d,\"avx\":%d,\"avx512\":%d,\"align\":%u,\"sa_out\":%d,\"sa_preset\":%d",
                (unsigned long long)idx, arch_s.c_str(), cv.env, cv.conv, shape_names[shape], int(preserved_fp), int(want_avx), int(want_avx512), local_align, sa_out, sa_preset);
       head = b;
+      if (savar) {
+        snprintf(b, sizeof b, ",\"var\":{\"sa\":\"%s\",\"reg\":%d,\"via\":\"%s\",\"da\":%d,\"fp\":%d}", var_sa_kind, var_sa_reg, var_via_frame ? "frame" : "args", int(var_da), int(var_fp));
+        head += b;
+      }
+      snprintf(b, sizeof b, ",\"abi\":%d,\"apres\":[%u,%u]", int(abi_known), abi_pres_gp, abi_pres_vec);
+      head += b;
       head += ",\"sig\":[";
       for (uint32_t i = 0; i < nargs; i++) { if (i) head += ","; head += jstr(type_name(sig.arg(i))); }
       head += "],\"vals\":[";
@@ -868,6 +1015,11 @@ static int mode_shuffle(const Args& args) {
                off_prolog, off_assign, frame.sa_offset_from_sa(), frame.sa_offset_from_sp(), frame.sa_reg_id(), int(frame.has_dynamic_alignment()),
                frame.local_stack_offset(), frame.callee_stack_cleanup());
       head += b;
+      // the frame's own view: which registers the prolog/epilog save and restore, and what the convention (as the library sees it) preserves
+      snprintf(b, sizeof b, ",\"saved\":[%u,%u],\"fpres\":[%u,%u],\"dirty\":[%u,%u]",
+               frame.saved_regs(RegGroup::kGp), frame.saved_regs(RegGroup::kVec), frame.preserved_regs(RegGroup::kGp), frame.preserved_regs(RegGroup::kVec),
+               frame.dirty_regs(RegGroup::kGp), frame.dirty_regs(RegGroup::kVec));
+      head += b;
     }
     if (e1 != Error::kOk) {
       st.rejected_emit++;
@@ -895,6 +1047,8 @@ static int mode_shuffle(const Args& args) {
       for (auto& k : sb.in.k) k = junk.next();
       for (auto& m : sb.in.mm) m = junk.next();
       memset(&sb.out, 0xEE, sizeof sb.out);
+      memset(&sb.after, 0xEE, sizeof sb.after);
+      sb.after_sp = 0;
       memset(sb.out_stack, 0xEE, sizeof sb.out_stack);
       // argument area at the top of the test stack, 64-byte aligned
       uint32_t asz = (fd.arg_stack_size() + 63u) & ~63u;
@@ -981,6 +1135,29 @@ static int mode_shuffle(const Args& args) {
             sa_bad = true;
             if (verdict == "ok") verdict = "mismatch";
           }
+        }
+      }
+      // ---- what the caller sees after the return: preserved registers hold their sentinels, the stack pointer is back ----
+      std::string pres_bad;
+      if (!sig_no) {
+        for (uint32_t i = 0; i < 16; i++) {
+          if (i == x86::Gp::kIdSp || !((abi_pres_gp >> i) & 1)) continue;
+          if (sb.after.gp[i] != sb.in.gp[i]) {
+            char b[160];
+            snprintf(b, sizeof b, "%s[\"gp\",%u,\"%016llx\",\"%016llx\"]", pres_bad.empty() ? "" : ",", i, (unsigned long long)sb.in.gp[i], (unsigned long long)sb.after.gp[i]);
+            pres_bad += b;
+          }
+        }
+        for (uint32_t i = 0; i < 16; i++) {
+          if (!((abi_pres_vec >> i) & 1)) continue;
+          if (memcmp(sb.after.vec[i], sb.in.vec[i], 16) != 0)
+            pres_bad += std::string(pres_bad.empty() ? "" : ",") + "[\"vec\"," + std::to_string(i) + "," + jstr(hexstr(sb.in.vec[i], 16)) + "," + jstr(hexstr(sb.after.vec[i], 16)) + "]";
+        }
+        head += ",\"pres_checked\":" + std::to_string(Support::popcnt(abi_pres_gp & ~0x10u) + Support::popcnt(abi_pres_vec)) + ",\"pres_bad\":[" + pres_bad + "]";
+        if (sb.after_sp != sb.new_sp) {
+          char b[96];
+          snprintf(b, sizeof b, ",\"sp_bad\":%lld", (long long)(sb.after_sp - sb.new_sp));
+          head += b;
         }
       }
       g_rt->_release(fn);
@@ -1111,6 +1288,51 @@ static bool build_al_thunk(JitRuntime& rt) {
 }
 static std::vector<SigEntry> g_sigs;
 
+// Preserved-register guard: every JIT function the interop mode runs is entered through this thunk, whether the caller is a
+// gcc-compiled C function or the driver itself. The thunk is transparent for arguments and return values (it touches no
+// argument/return register and leaves the stack exactly as its caller set it up: the return address is popped into memory and
+// the target is re-`call`ed, so stack arguments stay at [rsp+8]); it loads every callee-saved register of the target's
+// convention with a sentinel, calls, records what the registers and rsp hold after the return, and puts its caller's values back.
+struct GuardState {
+  uint64_t target, ret_addr, sp_before, sp_after, entered;
+  uint64_t saved_gp[16], seen_gp[16], sent_gp[16];
+  alignas(16) uint8_t saved_vec[16][16];
+  alignas(16) uint8_t seen_vec[16][16];
+  alignas(16) uint8_t sent_vec[16][16];
+};
+static GuardState* g_gs = nullptr;        // below 2 GiB: the thunk has no free register to address it with
+static void* g_guard_thunk[2] = {nullptr, nullptr};     // [0] SysV set, [1] Microsoft x64 set
+static const uint32_t kGuardGp[2] = {0xF028u, 0xF0E8u};  // rbx rbp r12-r15 | + rsi rdi
+static const uint32_t kGuardVec[2] = {0u, 0xFFC0u};      // - | xmm6-xmm15
+static const char* kGpNames64[16] = {"rax", "rcx", "rdx", "rbx", "rsp", "rbp", "rsi", "rdi", "r8", "r9", "r10", "r11", "r12", "r13", "r14", "r15"};
+
+static bool build_guard_thunks(JitRuntime& rt) {
+  void* p = mmap(nullptr, 65536, PROT_READ | PROT_WRITE, MAP_PRIVATE | MAP_ANONYMOUS | MAP_32BIT, -1, 0);
+  if (p == MAP_FAILED || uintptr_t(p) + 65536 >= 0x7FFF0000ull) return false;
+  g_gs = (GuardState*)p;
+  for (int w = 0; w < 2; w++) {
+    using namespace x86;
+    CodeHolder code;
+    code.init(rt.environment(), rt.cpu_features());
+    Assembler a(&code);
+    a.pop(abs_mem(&g_gs->ret_addr, 8));
+    a.mov(abs_mem(&g_gs->sp_before, 8), rsp);
+    for (uint32_t r = 0; r < 16; r++) if ((kGuardGp[w] >> r) & 1) a.mov(abs_mem(&g_gs->saved_gp[r], 8), gpq(r));
+    for (uint32_t v = 0; v < 16; v++) if ((kGuardVec[w] >> v) & 1) a.movups(abs_mem(g_gs->saved_vec[v], 16), xmm(v));
+    for (uint32_t r = 0; r < 16; r++) if ((kGuardGp[w] >> r) & 1) a.mov(gpq(r), abs_mem(&g_gs->sent_gp[r], 8));
+    for (uint32_t v = 0; v < 16; v++) if ((kGuardVec[w] >> v) & 1) a.movups(xmm(v), abs_mem(g_gs->sent_vec[v], 16));
+    a.inc(abs_mem(&g_gs->entered, 8));
+    a.call(abs_mem(&g_gs->target, 8));
+    a.mov(abs_mem(&g_gs->sp_after, 8), rsp);
+    a.mov(rsp, abs_mem(&g_gs->sp_before, 8));
+    for (uint32_t r = 0; r < 16; r++) if ((kGuardGp[w] >> r) & 1) { a.mov(abs_mem(&g_gs->seen_gp[r], 8), gpq(r)); a.mov(gpq(r), abs_mem(&g_gs->saved_gp[r], 8)); }
+    for (uint32_t v = 0; v < 16; v++) if ((kGuardVec[w] >> v) & 1) { a.movups(abs_mem(g_gs->seen_vec[v], 16), xmm(v)); a.movups(xmm(v), abs_mem(g_gs->saved_vec[v], 16)); }
+    a.jmp(abs_mem(&g_gs->ret_addr, 8));
+    if (rt._add(&g_guard_thunk[w], &code) != Error::kOk) return false;
+  }
+  return true;
+}
+
 template<typename R, typename... A> static void reg_sig() {
   SigEntry e;
   e.ret = TI<R>::id();
@@ -1168,6 +1390,7 @@ static void register_sigs() {
 
 struct IoStats {
   uint64_t calls = 0, built = 0, rejected = 0;
+  uint64_t guard_calls = 0, guard_regs = 0, guard_funcs = 0;
   std::map<std::string, uint64_t> rejects;
   std::vector<std::string> violations;
   std::set<std::string> vkeys;
@@ -1325,6 +1548,42 @@ static void fill_values(Rng& rng, const FuncSignature& sig) {
   g_cal.n = 0xFFFFFFFFu;
 }
 
+// arm the guard for one call of `target` whose convention preserves set `w`; returns the address to call instead
+static Rng g_guard_rng(0xC06C06);
+static void* guard_arm(void* target, int w) {
+  GuardState& gs = *g_gs;
+  gs.target = uint64_t(uintptr_t(target));
+  gs.entered = 0;
+  gs.sp_after = 0;
+  for (uint32_t r = 0; r < 16; r++) { gs.sent_gp[r] = (g_guard_rng.next() & 0x0000FFFFFFFF0000ull) | 0x5E00000000000000ull | (uint64_t(r) << 52) | 0xC06u; gs.seen_gp[r] = 0; }
+  for (uint32_t v = 0; v < 16; v++) { for (auto& b : gs.sent_vec[v]) b = uint8_t(g_guard_rng.next()); gs.sent_vec[v][15] = uint8_t(0xA0 + v); memset(gs.seen_vec[v], 0, 16); }
+  return g_guard_thunk[w];
+}
+
+// judge what the guard saw; `who` = jit-caller / jit-callee / lightcall part of the key, `cc` the convention part
+static void guard_judge(IoStats& st, int w, const std::string& key_prefix, const std::string& text) {
+  GuardState& gs = *g_gs;
+  st.guard_calls++;
+  if (gs.entered != 1) { io_violation(st, key_prefix + ":guard-not-entered-once", text + ": the preserved-register guard ran " + std::to_string(gs.entered) + " times"); return; }
+  for (uint32_t r = 0; r < 16; r++) {
+    if (!((kGuardGp[w] >> r) & 1)) continue;
+    st.guard_regs++;
+    if (gs.seen_gp[r] != gs.sent_gp[r]) {
+      char b[200];
+      snprintf(b, sizeof b, ": callee-saved %s held 0x%016llx at the call and 0x%016llx after the return", kGpNames64[r], (unsigned long long)gs.sent_gp[r], (unsigned long long)gs.seen_gp[r]);
+      io_violation(st, key_prefix + ":callee-saved-clobbered:" + kGpNames64[r], text + b);
+    }
+  }
+  for (uint32_t v = 0; v < 16; v++) {
+    if (!((kGuardVec[w] >> v) & 1)) continue;
+    st.guard_regs++;
+    if (memcmp(gs.seen_vec[v], gs.sent_vec[v], 16) != 0)
+      io_violation(st, key_prefix + ":callee-saved-clobbered:xmm" + std::to_string(v), text + ": callee-saved xmm" + std::to_string(v) + " held " + hexstr(gs.sent_vec[v], 16) + " at the call and " + hexstr(gs.seen_vec[v], 16) + " after the return");
+  }
+  if (gs.sp_after != gs.sp_before)
+    io_violation(st, key_prefix + ":stack-pointer-not-restored", text + ": rsp after the return differs from rsp before the call by " + std::to_string((long long)(gs.sp_after - gs.sp_before)));
+}
+
 struct CallCtx { void (*fn)(void*); void* arg; };
 static void call_ctx(void* p) { CallCtx* c = (CallCtx*)p; c->fn(c->arg); }
 static void call_void_fn(void* p) { ((void (*)(void))p)(); }
@@ -1372,6 +1631,7 @@ int mode_interop(const Args& args) {
   JitRuntime rt;
   IoStats st;
   build_al_thunk(rt);
+  if (!build_guard_thunks(rt)) { fprintf(stderr, "guard thunk: cannot build\n"); return 5; }
   Rng rng(seed * 0x2545F4914F6CDD1Dull + 6);
   static const char* conv_names[2] = {"sysv64", "win64"};
   static const CallConvId conv_ids[2] = {CallConvId::kX64SystemV, CallConvId::kX64Windows};
@@ -1411,9 +1671,11 @@ int mode_interop(const Args& args) {
             fill_values(rng, sig);
             g_thunk_target = e.c_callee[cv];
             g_al_seen = 0xFFFFFFFFu;
-            CallCtx ctx{call_void_fn, fn};
+            // the JIT caller itself is a SysV `void f(void)`: entered through the guard with the SysV preserved set
+            CallCtx ctx{call_void_fn, guard_arm(fn, 0)};
             int sg = run_guarded(call_ctx, &ctx);
             st.calls++;
+            if (!sg) guard_judge(st, 0, std::string("interop:") + conv_names[cv] + vk + ":jit-caller", "JIT function (SysV, void(void)) that invokes C callee " + text);
             if (watch_al && !sg) {
               uint32_t al = g_al_seen & 0xFFu;
               if (g_al_seen == 0xFFFFFFFFu) io_violation(st, "interop:sysv64:va:thunk-not-reached", "variadic call " + text + " never reached the call target");
@@ -1465,9 +1727,11 @@ int mode_interop(const Args& args) {
           st.built++;
           for (uint64_t r = 0; r < reps; r++) {
             fill_values(rng, sig);
-            CallCtx ctx{e.c_caller[cv], fn};
+            // gcc-compiled caller -> guard (same convention as the callee) -> JIT function
+            CallCtx ctx{e.c_caller[cv], guard_arm(fn, cv)};
             int sg = run_guarded(call_ctx, &ctx);
             st.calls++;
+            if (!sg) guard_judge(st, cv, std::string("interop:") + conv_names[cv] + ":jit-callee", "C caller -> JIT function " + text);
             if (sg) { io_violation(st, std::string("interop:") + conv_names[cv] + ":jit-callee:crash", "C caller of JIT function " + text + " crashed with signal " + std::to_string(sg)); break; }
             for (uint32_t i = 0; i < sig.arg_count(); i++) {
               if (unchecked[i]) continue;
@@ -1530,10 +1794,11 @@ int mode_interop(const Args& args) {
     st.built++;
     void* fn = (uint8_t*)base + code.label_offset_from_base(caller->label());
     fill_values(r2, sig);
-    CallCtx ctx{call_void_fn, fn};
+    CallCtx ctx{call_void_fn, guard_arm(fn, 0)};
     int sg = run_guarded(call_ctx, &ctx);
     st.calls++;
     light_calls++;
+    if (!sg) guard_judge(st, 0, "interop:lightcall:jit-caller", "JIT function (SysV, void(void)) that invokes light-call function " + text);
     if (sg) io_violation(st, "interop:lightcall:crash", "light-call caller/callee pair " + text + " crashed with signal " + std::to_string(sg));
     else {
       for (uint32_t i = 0; i < sig.arg_count(); i++) {
@@ -1554,7 +1819,8 @@ int mode_interop(const Args& args) {
   }
 
   std::string o = "{\"summary\":1,\"mode\":\"interop\",\"signatures\":" + std::to_string(g_sigs.size()) + ",\"calls\":" + std::to_string(st.calls) +
-                  ",\"light_calls\":" + std::to_string(light_calls) + ",\"built\":" + std::to_string(st.built) + ",\"rejected\":" + std::to_string(st.rejected) + ",\"rejects\":{";
+                  ",\"light_calls\":" + std::to_string(light_calls) + ",\"built\":" + std::to_string(st.built) + ",\"rejected\":" + std::to_string(st.rejected) +
+                  ",\"guard_calls\":" + std::to_string(st.guard_calls) + ",\"guard_regs\":" + std::to_string(st.guard_regs) + ",\"rejects\":{";
   bool f = true;
   for (auto& kv : st.rejects) { if (!f) o += ","; f = false; o += jstr(kv.first) + ":" + std::to_string(kv.second); }
   o += "},\"samples\":[";
